@@ -528,7 +528,122 @@ def area_json(ctx, b):
         b.prefailed = getattr(b, 'prefailed', []) + [(fn, op, line, why)]
 
 
-AREAS = {'json': area_json, 'hands': area_hands, 'score': area_score, 'imps': area_imps, 'notation': area_notation, 'auction': area_auction, 'play': area_play}
+def area_pbn(ctx, b):
+    """the PBN writer: header and board results of whole sessions, compared as TEXT (incl. over-long lines)"""
+    import datetime
+    import io
+    from bridge_env import Bid, Card, Contract, Hands, Player, Vul
+    from bridge_env.data_handler.pbn_handler.writer import PbnWriter, Scoring
+    rng = ctx.rng
+    driver = common.ModelDriver()
+    n_docs = 8 if ctx.quick else 60
+    names = ['teamNS', 'Team (A)', 'x', 'a b', 'E/W', 'ſtrange', 'é😀', 'n' * 300, 'w ' * 140, '']
+    bad = []
+    for d in range(n_docs):
+        fp = io.StringIO()
+        w = PbnWriter(fp)
+        ops = ['Y.newr f _File', 'Y.newr w PbnWriter $f']
+        if rng.random() < 0.8:
+            w.write_header()
+            ops.append('Y.methr w PbnWriter write_header')
+        expect_exc = None
+        for k in range(rng.choice([1, 1, 2, 3])):
+            cards = [Card.int_to_card(i) for i in range(52)]
+            rng.shuffle(cards)
+            hs = [set(cards[i * 13:(i + 1) * 13]) for i in range(4)]
+            if rng.random() < 0.15:
+                hs[rng.randrange(4)] = set()
+            deal = Hands(*hs)
+            dealer, vul = rng.choice(list(Player)), rng.choice(list(Vul))
+            if rng.random() < 0.2:
+                con, taken = Contract(None, vul=vul), None
+            else:
+                x = rng.random() < 0.3
+                con = Contract(rng.choice(list(Bid)[:35]), x, x and rng.random() < 0.4, vul, rng.choice(list(Player)))
+                taken = rng.randrange(0, 14)
+            if rng.random() < 0.06:
+                taken = None if taken is not None else 5          # trips the assertion
+            date = datetime.date(rng.choice([1, 987, 2024, 2026]), rng.randrange(1, 13), rng.randrange(1, 29))
+            board_num = rng.choice([1, 2, 16, 100]) if rng.random() < 0.95 else rng.choice([0, -3])
+            args = dict(event=rng.choice(names), site=rng.choice(names), date=date, board_num=board_num,
+                        west_player=rng.choice(names), north_player=rng.choice(names), east_player=rng.choice(names),
+                        south_player=rng.choice(names), dealer=dealer, deal=deal, scoring=rng.choice(list(Scoring)),
+                        contract=con, taken_tricks=taken)
+            out = PC.outcome(lambda: w.write_board_result(**args))
+            order = ['event', 'site', 'date', 'board_num', 'west_player', 'north_player', 'east_player', 'south_player', 'dealer',
+                     'deal', 'scoring', 'contract', 'taken_tricks']
+            enc = []
+            for key in order:
+                if key == 'deal':
+                    enc.append(enc_hands_obj(deal))
+                elif key == 'date':
+                    enc.append('o_Date{text=' + PC.enc(date.strftime('%Y.%m.%d')) + '}')
+                else:
+                    enc.append(PC.enc(args[key]))
+            ops.append('Y.methr w PbnWriter write_board_result ' + ' '.join(enc))
+            if out[0] == 'exc':
+                expect_exc = out[1]
+                break
+        lines = driver.run(ops)
+        ctx.count('translated_pbn_documents')
+        last = lines[-1].split(' ')
+        if expect_exc is not None:
+            # python may have written part of the game before raising; the translated call leaves the receiver unchanged:
+            # only the exception class is compared
+            if last[0] != 'exc' or last[1] != expect_exc:
+                bad.append(('PbnWriter.write_board_result', ops[-1][:300], lines[-1][:200], f'python raised {expect_exc}'))
+            ctx.count('translated_pbn_raises')
+            continue
+        text = fp.getvalue()
+        mtext = None
+        if last[0] == 'ok':
+            buf = PC.parse(last[2])[2]['writer'][2]['buf']
+            mtext = ''.join(x[1] for x in buf[1])
+        if mtext != text:
+            bad.append(('PbnWriter', ops[-1][:300], lines[-1][:200],
+                        f'document text differs: python {text[-200:]!r} / translated {str(mtext)[-200:]!r}'))
+        if any(len(l) > 200 for l in text.split('\n')):
+            ctx.count('translated_pbn_long_lines')
+    for fn, op, line, why in bad[:3]:
+        b.prefailed = getattr(b, 'prefailed', []) + [(fn, op, line, why)]
+
+
+def area_net(ctx, b):
+    """the pure helpers of the network layer: Server.hand_to_str, the bundled bidding systems"""
+    from bridge_env import Bid, Card, Player, Vul
+    from bridge_env.bidding_phase import BiddingPhase
+    from bridge_env.network_bridge.bidding_system import AlwaysPass, WeakBid
+    from bridge_env.network_bridge.server import Server
+    rng = ctx.rng
+    deck = [Card.int_to_card(i) for i in range(52)]
+    n = 60 if ctx.quick else 600
+    for k in range(n):
+        size = rng.choice([0, 1, 5, 13, 13, 13, rng.randrange(0, 14)])
+        if rng.random() < 0.2:
+            su = rng.randrange(4)
+            pool = [c for c in deck if c.suit.value - 1 != su]          # a void
+        else:
+            pool = deck
+        hand = set(rng.sample(pool, min(size, len(pool))))
+        b.ops.append('Y.meth Server hand_to_str ' + PC.enc(hand))
+        b.exp.append((PC.outcome(lambda: Server.hand_to_str(hand)), None))
+        b.info.append('Server.hand_to_str')
+    for k in range(n // 4):
+        bp = BiddingPhase(rng.choice(list(Player)), rng.choice(list(Vul)))
+        for _ in range(rng.randrange(0, 6)):
+            legal = [x for x in Bid if bp.available_bid[x.idx] == 1]
+            if bp.has_done() or not legal:
+                break
+            bp.take_bid(rng.choice(legal) if rng.random() < 0.5 else Bid.Pass)
+        hand = tuple(rng.randrange(2) for _ in range(52))
+        for cls in (WeakBid, AlwaysPass):
+            b.ops.append(f'Y.meth {cls.__name__} bid o{cls.__name__}{{}} {PC.enc(hand)} {PC.enc(bp)}')
+            b.exp.append((PC.outcome(lambda: cls().bid(hand, bp)), None))
+            b.info.append(cls.__name__ + '.bid')
+    ctx.count('translated_net_calls', len(b.ops))
+
+
+AREAS = {'net': area_net, 'pbn': area_pbn, 'json': area_json, 'hands': area_hands, 'score': area_score, 'imps': area_imps, 'notation': area_notation, 'auction': area_auction, 'play': area_play}
 # areas whose input set does not depend on the shard: only shard 0 runs them
 UNSHARDED = {'score', 'imps', 'notation'}
 
